@@ -49,13 +49,18 @@ func stapleOCSP(ctx context.Context, ocspConfig OCSPConfig, storage Storage, cer
 		return nil
 	}
 
+	// The storage key of the staple is derived from our own PEM encoding of the
+	// chain, never from the bundle as handed in: callers that have the stored
+	// bundle (whose PEM need not be byte-identical to ours) and callers that pass
+	// nil must arrive at the same key.
+	bundle := new(bytes.Buffer)
+	for _, derBytes := range cert.Certificate.Certificate {
+		pem.Encode(bundle, &pem.Block{Type: "CERTIFICATE", Bytes: derBytes})
+	}
+	canonicalBundle := bundle.Bytes()
 	if pemBundle == nil {
 		// we need a PEM encoding only for some function calls below
-		bundle := new(bytes.Buffer)
-		for _, derBytes := range cert.Certificate.Certificate {
-			pem.Encode(bundle, &pem.Block{Type: "CERTIFICATE", Bytes: derBytes})
-		}
-		pemBundle = bundle.Bytes()
+		pemBundle = canonicalBundle
 	}
 
 	var ocspBytes []byte
@@ -65,7 +70,7 @@ func stapleOCSP(ctx context.Context, ocspConfig OCSPConfig, storage Storage, cer
 
 	// First try to load OCSP staple from storage and see if
 	// we can still use it.
-	ocspStapleKey := StorageKeys.OCSPStaple(cert, pemBundle)
+	ocspStapleKey := StorageKeys.OCSPStaple(cert, canonicalBundle)
 	cachedOCSP, err := storage.Load(ctx, ocspStapleKey)
 	if err == nil {
 		// the stored staple must be a response for this very certificate (and be
